@@ -173,7 +173,7 @@ def rTargetStep (res outW inW delta : α) (inCl outCl : List α) (acc : List Nat
 /-- `k = rand() % size; for t in set: k -= 1; if k == 0: break` — element `k-1`, the last one when `k = 0` -/
 def pick (r : Nat) (s : List Nat) : Nat :=
   let k := r % s.length
-  if k == 0 then s.getLastD 0 else s.getD (k - 1) 0
+  if k == 0 then s.getD (s.length - 1) 0 else s.getD (k - 1) 0
 
 /-- body of `for i in range(n)`; state = (arrays, `increase` flag, remaining `rand()` values) -/
 def rNodeStep (g : Graph α) (res : α) (labels : List Nat) (acc : RSt α × Bool × List Nat) (i : Nat) :
